@@ -487,6 +487,9 @@ def compare_with_previous_snapshot(tr: Trace, market, t: int, inclusive: bool) -
     (of times < t in the before-step hook, of times <= t in the after-step hook, when the step's values are final)."""
     cur = {g: getattr(market, g)(range(t + 1 if inclusive else t)) for g in GETN}
     names_ = list(GETN)
+    # the volume-weighted average price up to a PAST step is history as well
+    cur["get_vwap"] = [market.get_vwap(u) for u in range(t + 1 if inclusive else t)]
+    names_.append("get_vwap")
     if isinstance(market, IndexMarket):
         # the index value of a PAST time is history too
         cur["get_index"] = [market.get_index(u) for u in range(t + 1 if inclusive else t)]
@@ -506,6 +509,25 @@ def compare_with_previous_snapshot(tr: Trace, market, t: int, inclusive: bool) -
 
 class VSnapEvent(VProbeEvent):
     """probe with a before-step hook on every market (used when a profile needs observation at every step)."""
+
+
+from pams.events import FundamentalPriceShock, OrderMistakeShock, PriceLimitRule, TradingHaltRule  # noqa: E402
+
+
+class VSubPriceLimitRule(PriceLimitRule):
+    """user subclasses of the shipped events that add nothing: every handler is inherited"""
+
+
+class VSubTradingHaltRule(TradingHaltRule):
+    pass
+
+
+class VSubFundamentalPriceShock(FundamentalPriceShock):
+    pass
+
+
+class VSubOrderMistakeShock(OrderMistakeShock):
+    pass
 
 
 class VForwardingMarket(Market):
@@ -529,7 +551,7 @@ class VQuotedMarket(Market):
         return super().get_fundamental_price(time) * 1.01
 
 
-ALL_CLASSES = [VForwardingMarket, VScriptedAgent, VScriptedHFT, VScriptedHFTLate, VScriptedAgentSub, VTracedHFTMaker, VProbeEvent, VSnapEvent, VQuotedMarket] + TRACED
+ALL_CLASSES = [VSubPriceLimitRule, VSubTradingHaltRule, VSubFundamentalPriceShock, VSubOrderMistakeShock, VForwardingMarket, VScriptedAgent, VScriptedHFT, VScriptedHFTLate, VScriptedAgentSub, VTracedHFTMaker, VProbeEvent, VSnapEvent, VQuotedMarket] + TRACED
 
 
 # ---------------------------------------------------------------------------------------------------------------
